@@ -1,0 +1,75 @@
+// Copyright (c) Anza Technology, Inc.
+// SPDX-License-Identifier: Apache-2.0
+
+//! Verification hooks for the deterministic-simulation harness.
+//!
+//! Only compiled with the `verif-hooks` feature, which is off by default.
+//! Provides:
+//! - a seeded replacement for the thread RNG (one distinct, deterministic
+//!   stream per call, so independent call sites stay independent), and
+//! - a read-only, thread-local log of the finalization events a pool processed.
+//!
+//! All state is thread-local: the harness runs one simulated execution per OS thread.
+
+use std::cell::RefCell;
+
+use rand::prelude::*;
+
+use crate::crypto::merkle::BlockHash;
+use crate::{Slot, ValidatorIndex};
+
+thread_local! {
+    static RNG_STATE: RefCell<(u64, u64)> = const { RefCell::new((0, 0)) };
+    static FIN_LOG: RefCell<Vec<FinalizationRecord>> = const { RefCell::new(Vec::new()) };
+}
+
+/// Sets the seed all subsequent [`rng`] calls on this thread derive from.
+pub fn set_seed(seed: u64) {
+    RNG_STATE.with(|s| *s.borrow_mut() = (seed, 0));
+}
+
+/// Seeded stand-in for `rand::rng()`.
+///
+/// Every call returns a fresh generator whose stream depends on the seed and
+/// on how many calls were made before on this thread.
+pub fn rng() -> StdRng {
+    RNG_STATE.with(|s| {
+        let mut s = s.borrow_mut();
+        s.1 += 1;
+        let mut seed = [0u8; 32];
+        seed[0..8].copy_from_slice(&s.0.to_le_bytes());
+        seed[8..16].copy_from_slice(&s.1.to_le_bytes());
+        seed[16..24].copy_from_slice(b"verifrng");
+        StdRng::from_seed(seed)
+    })
+}
+
+/// What a pool learned about finality in one step.
+#[derive(Clone, Debug, PartialEq, Eq)]
+pub enum FinalizationKind {
+    /// Block was finalized directly (fast-final, or final + notar).
+    Finalized(Slot, BlockHash),
+    /// Block was finalized as an ancestor of a finalized block.
+    ImplicitlyFinalized(Slot, BlockHash),
+    /// Slot was skipped as a consequence of a finalization.
+    ImplicitlySkipped(Slot),
+}
+
+/// One entry of the finalization log.
+#[derive(Clone, Debug, PartialEq, Eq)]
+pub struct FinalizationRecord {
+    /// The validator whose pool processed the event.
+    pub node: ValidatorIndex,
+    /// What was decided.
+    pub kind: FinalizationKind,
+}
+
+/// Appends to this thread's finalization log.
+pub(crate) fn record_finalization(node: ValidatorIndex, kind: FinalizationKind) {
+    FIN_LOG.with(|l| l.borrow_mut().push(FinalizationRecord { node, kind }));
+}
+
+/// Takes (and clears) this thread's finalization log.
+pub fn take_finalization_log() -> Vec<FinalizationRecord> {
+    FIN_LOG.with(|l| std::mem::take(&mut *l.borrow_mut()))
+}
